@@ -349,7 +349,7 @@ def run(rep, tier, only=None):
                   "leaves": "target_os = x, feature = \"f\", bare word", "os_names": "symbolic over {a,b,c,d}", "target_list": "length 0..%d, symbolic over {a,b,c,d}" % tl_max,
                   "attributes_per_item": "1-2 cfg attributes mixed with doc/derive"}
     rep.outside = ["cfg predicates syn cannot parse as Meta (e.g. version(\"1.70\"))", "deeper/wider trees than the bound",
-                   "attachment levels other than the type level are decided by the parser checks (C03/C08 harnesses call is_skipped with target_os)"]
+                   "at the file / variant / field levels only the six trees of the levels group are decided (the exhaustive tree enumeration is at the type level)"]
     rep.assumptions = ["documented rule: OS names under some not() reject, others accept; accepted <=> T empty or (no rejecting name in T and (no accepting name or some accepting name in T))"]
     # selftest: the repo's own 13 unit-test vectors, through the interpreter and the real library
     vecs = [("all(feature = \"my-feature\", not(target_os = \"ios\"))", ["ios", "android"], False), ("target_os = \"android\"", ["ios", "android"], True),
